@@ -32,6 +32,9 @@ def build(ctx=None):
     ok, out, dt = vlib.go_build("raftabs")
     if not ok:
         raise RuntimeError("raftabs harness build failed:\n" + out[-3000:])
+    ok, out, _ = vlib.coq_make(["RaftAbs/Acceptor.vo"])      # the extraction needs Model.vo / Acceptor.vo (no proofs)
+    if not ok:
+        raise RuntimeError("RaftAbs/Acceptor.vo does not build:\n" + vlib.tail_err(out))
     ok, out, dt2 = vlib.model_build(GROUP)
     if not ok:
         raise RuntimeError("RaftAbs model build failed:\n" + out[-3000:])
